@@ -9,10 +9,13 @@ import pipeline as P
 
 NOT_CARRIED = [
     "full-strength 'delayed by the patch-receiver travel time' is refuted for histograms the delayed energy does "
-    "not fit into (np.roll wraps): C11_wrap_refuted, known finding C11/receiver_wrap; proved on the complement",
-    "the receiver factor (solid angle / (pi * area)) is computed by pt_solution, whose correctness as a solid "
-    "angle is Gauss-Bonnet (see C04); here it is an input of the model and is cross-checked by the search "
-    "against an independent solid-angle formula",
+    "not fit into (np.roll wraps): C11_wrap_refuted, known finding C11/receiver_wrap; proved on the complement, "
+    "for the scene model (C11_patch_term_partial) and for the composed room model (C11_room_receiver_partial); "
+    "C11_room_receiver states the formula with the cyclic delay the code has",
+    "in the composed room model the receiver factor IS pt_solution(receiver mode) of the patch polygon and the "
+    "visibility IS the room's point-to-patch scan (C11_room_receiver); that pt_solution is the solid angle is "
+    "Gauss-Bonnet (see C04) and that the scan is the geometric line of sight is C07 -- neither is re-proved here; "
+    "the search cross-checks the factor against an independent solid-angle formula",
 ]
 
 
